@@ -14,12 +14,24 @@
   state what the code does without it; `doc_tags_unchecked_outside_invoices`
   states the known finding of this property (`$tags` of orders, deliveries and
   payments are not compared with the defined tags).
+
+  Key positions (`means_key_sound`, `note_key_sound`, `terms_key_sound`): payment means keys
+  (by their base), payment terms keys and note keys against the key sets the schemas
+  publish (`Generated.Defs.keySets`); `Refs.openKeyPositions` lists the positions the code
+  leaves open.
+
+  `namespace Src` (before `Expect`) ties the model to the source: the leaf predicates of
+  /repo/cbc and /repo/tax that implement the rules are TRANSLATED from Go on every run
+  (Generated/RefsSrc.lean, harness/cmd/extract/refssrc.go) and proved equal to the model's
+  predicates for all arguments.
 -/
 import GoblVerif.Spec.C18
 import GoblVerif.Generated.Defs
 import GoblVerif.Generated.RefsFacts
 import GoblVerif.Model.RefsCtx
 import GoblVerif.Generated.RefsCtxFacts
+import GoblVerif.Generated.RefsSrc
+import GoblVerif.Proofs.RefsSrc
 
 namespace GoblVerif.Props.C18
 open GoblVerif.Refs GoblVerif.Spec.C18
@@ -437,6 +449,315 @@ theorem shared_agrees_without_party_regimes (d : Defs) (pm : PatternMatch) (doc 
   unfold validateDocShared validateDoc
   simp only [hfold doc.parties (docContext d doc) hp]
 
+/-! ## key positions: payment means, payment terms, notes -/
+
+/-- the base of a key, as `keyHasPrefix` reads it, is the first `+`-separated part -/
+theorem keyHasPrefix_iff (k ke : String) :
+    keyHasPrefix k ke = true ↔ (splitPlus k.toList []).head? = some ke.toList := by
+  unfold keyHasPrefix
+  have hne : ∀ (s cur : List Char), splitPlus s cur ≠ [] := by
+    intro s
+    induction s with
+    | nil => intro cur; simp [splitPlus]
+    | cons c rest ih => intro cur; simp only [splitPlus]; split <;> simp [ih]
+  cases h : splitPlus k.toList [] with
+  | nil => exact absurd h (hne _ _)
+  | cons a l => simp
+
+/-- **payment means keys**: an accepted `payment.instructions.key` / `advances[*].key` is blank
+    (advances only) or its base is one of the published means keys -/
+theorem means_key_sound (ks : KeySets) (required : Bool) (k : String)
+    (h : validateMeansKey ks required k = true) : (k = "" ∧ required = false) ∨ meansKeyResolves ks k := by
+  unfold validateMeansKey hasValidKeyIn at h
+  simp only [Bool.and_eq_true, Bool.or_eq_true, Bool.not_eq_true', bne_iff_ne, ne_eq, beq_iff_eq, List.any_eq_true] at h
+  obtain ⟨hreq, hk⟩ := h
+  rcases hk with h0 | ⟨base, hb, hp⟩
+  · left
+    rcases hreq with hr | hr
+    · exact ⟨h0, hr⟩
+    · exact absurd h0 hr
+  · right
+    exact ⟨base, hb, (keyHasPrefix_iff k base).mp hp⟩
+
+/-- **note keys / payment terms keys**: accepted keys are blank or published -/
+theorem note_key_sound (ks : KeySets) (k : String) (h : validateNoteKey ks k = true) :
+    k = "" ∨ noteKeyResolves ks k := by
+  unfold validateNoteKey at h
+  simpa [noteKeyResolves] using h
+
+theorem terms_key_sound (ks : KeySets) (k : String) (h : validateTermsKey ks k = true) :
+    k = "" ∨ termsKeyResolves ks k := by
+  unfold validateTermsKey at h
+  simpa [termsKeyResolves] using h
+
+theorem meansKeyResolvesB_iff (ks : KeySets) (k : String) :
+    meansKeyResolvesB ks k = true ↔ meansKeyResolves ks k := by
+  unfold meansKeyResolvesB meansKeyResolves
+  simp [List.any_eq_true]
+
+/-! ## the tie to the source: regenerated definition = model, for all arguments
+
+`Generated/RefsSrc.lean` is regenerated on every run from /repo/cbc and /repo/tax by the
+go2lean translator (harness/cmd/extract/refssrc.go, go2lean_refs.go).  Strings are the lists
+of their bytes there; the model's `String` arguments enter through `String.toList`
+(injective: `String.toList_inj`).  Trusted: the translator's reading of Go and the declared
+primitives of Model/RefsSrc.lean (header of the generated file). -/
+namespace Src
+open GoblVerif.Generated GoblVerif.Refs.Src GoblVerif.GoStr GoblVerif.Proofs.RefsSrc
+
+/-- everything asked for was translated -/
+theorem all_translated : RefsSrc.untranslated = [] := by decide
+
+theorem translated_units :
+    RefsSrc.Cbc.translated = ["Key.String", "var KeySeparator", "Key.Has", "Key.HasPrefix", "Key.In", "Key.IsEmpty",
+      "hasKeyRule.Validate", "Definition.CodeDef", "Definition.HasCode", "Definition.KeyDef", "Definition.HasKey",
+      "GetKeyDefinition", "GetCodeDefinition"] ∧
+    RefsSrc.Tax.translated = ["inCategoryRatesRule.Validate", "RegimeDef.CategoryDef", "TagSetForSchema",
+      "tagValidation.Validate", "addonValidation.Validate", "Regime.Validate", "validateExtCodeValues.Validate",
+      "validateExtCodeMap.Validate", "Extensions.Validate"] ∧
+    RefsSrc.fuelChecks = [] := by decide
+
+/-- the separator handed to `strings.Split` is "+" (the primitives model non-empty separators) -/
+theorem key_separator : RefsSrc.Cbc.KeySeparator = ['+'] ∧ sepOK RefsSrc.Cbc.KeySeparator = true := by decide
+
+/-- the Go declarations the structures stand for, and what was left out of them -/
+theorem structs_as_modelled :
+    RefsSrc.Cbc.struct_hasKeyRule = [("elements", "[]Key")] ∧
+    RefsSrc.Cbc.structLean_Definition = ("GoblVerif.Refs.Src.CDef", ["key", "code", "values", "pattern"]) ∧
+    RefsSrc.Cbc.struct_Definition.filter (fun f => f.1 ∈ ["Key", "Code", "Values", "Pattern"]) =
+      [("Key", "Key"), ("Code", "Code"), ("Values", "[]*Definition"), ("Pattern", "string")] ∧
+    RefsSrc.Tax.struct_inCategoryRatesRule = [("cat", "cbc.Code"), ("keys", "[]cbc.Key")] ∧
+    RefsSrc.Tax.struct_tagValidation = [("keys", "[]cbc.Key")] ∧
+    RefsSrc.Tax.struct_addonValidation = [] ∧
+    RefsSrc.Tax.struct_Regime = [("Country", "l10n.TaxCountryCode")] ∧
+    RefsSrc.Tax.struct_validateExtCodeValues = [("key", "cbc.Key"), ("values", "[]cbc.Code")] ∧
+    RefsSrc.Tax.struct_validateExtCodeMap = [("keys", "[]cbc.Key"), ("required", "bool"), ("exclude", "bool")] ∧
+    RefsSrc.Tax.struct_Tags = [("List", "[]cbc.Key")] ∧
+    RefsSrc.Tax.struct_TagSet = [("Schema", "string"), ("List", "[]*cbc.Definition")] ∧
+    RefsSrc.Tax.structLean_RegimeDef = ("GoblVerif.Refs.Src.RegimeD", ["categories"]) ∧
+    RefsSrc.Tax.structLean_CategoryDef = ("GoblVerif.Refs.Src.CategoryD", ["code", "rates"]) ∧
+    RefsSrc.Tax.structLean_RateDef = ("GoblVerif.Refs.Src.RateD", ["key"]) := by decide
+
+/-- the primitives of the translation (what is NOT looked into), and the bookkeeping of maps:
+    the ranges over the extension map (their order does not matter: only nil-ness of the
+    error is observed, and `List.all` does not depend on the order) and the writes to the
+    local `validation.Errors` maps -/
+theorem primitives_as_declared :
+    RefsSrc.Cbc.primitives = [("errors.New", "GoblVerif.GoStr.errNew {0:lit}"), ("regexp.MustCompile", "{0:lit}"),
+      ("strings.Split", "GoblVerif.Refs.Src.split {0} {1}"), ("strings.SplitN", "GoblVerif.Refs.Src.splitN {0} {1} {2}")] ∧
+    RefsSrc.Tax.primitives.map (·.1) = ["AddonForKey", "ExtensionForKey", "Regime.RegimeDef", "assert Extensions",
+      "assert Tags", "assert []cbc.Key", "assert cbc.Key", "cbc.Code.String", "cbc.Definition.HasCode", "cbc.Key.Has",
+      "cbc.Key.In", "cbc.Key.IsEmpty", "cbc.Key.String", "cbc.Key.Validate", "error validation.Errors", "errors.New",
+      "l10n.TaxCountryCode.Code", "l10n.TaxCountryCode.Empty", "l10n.TaxCountryCode.String", "regexp.Compile",
+      "regexp.Regexp.MatchString", "validation.Validate"] ∧
+    RefsSrc.Tax.mapRanges = [("validateExtCodeMap.Validate", "em"), ("Extensions.Validate", "em"), ("Extensions.Validate", "em")] ∧
+    RefsSrc.Tax.mapNilTests = [] ∧ RefsSrc.Tax.inOutParams = [] ∧ RefsSrc.Cbc.mapWrites = [] := by decide
+
+/-! ### cbc -/
+
+/-- **`cbc.Key.Has`, regenerated from the source, is the model's `keyHas`**: one of the
+    `+`-separated parts equals the argument — for all keys -/
+theorem src_Key_Has (k ke : String) : RefsSrc.Cbc.Key_Has k.toList ke.toList = keyHas k ke :=
+  src_Key_Has_list k.toList ke.toList
+
+/-- … and for every byte string, not only the valid UTF-8 ones -/
+theorem src_Key_Has_bytes (k ke : Str) : RefsSrc.Cbc.Key_Has k ke = (splitPlus k []).any (· == ke) :=
+  src_Key_Has_list k ke
+
+/-- `cbc.Key.In` is list membership -/
+theorem src_Key_In (k : Str) (set : List Str) : RefsSrc.Cbc.Key_In k set = set.contains k :=
+  GoblVerif.Proofs.RefsSrc.src_Key_In k set
+
+/-- **`cbc.Key.HasPrefix` is the model's `keyHasPrefix`** -/
+theorem src_Key_HasPrefix (k ke : String) : RefsSrc.Cbc.Key_HasPrefix k.toList ke.toList = keyHasPrefix k ke :=
+  GoblVerif.Proofs.RefsSrc.src_Key_HasPrefix k.toList ke.toList
+
+/-- **`hasKeyRule.Validate` (`cbc.HasValidKeyIn`) is the model's `hasValidKeyIn`**: nil exactly
+    when the key is blank or its base is one of the rule's keys; a value of another dynamic
+    type passes -/
+theorem src_hasKeyRule (keys : List String) (k : String) :
+    (RefsSrc.Cbc.hasKeyRule_Validate ⟨keys.map String.toList⟩ (some k.toList)).isNone = hasValidKeyIn keys k := by
+  unfold RefsSrc.Cbc.hasKeyRule_Validate hasValidKeyIn
+  simp only [GoblVerif.GoSem.forIn_list_id, pure_bind]
+  simp only [Id.run, GoblVerif.GoSem.id_pure, Option.getD_some, Option.isSome_some, not_true_eq_false, false_or]
+  by_cases hk : k = ""
+  · subst hk; simp
+  · have h1 : ¬ k.toList = [] := by simpa using hk
+    have h2 : (k == "") = false := by simpa using hk
+    simp only [h1, if_false, h2, Bool.false_or]
+    rw [GoblVerif.GoSem.forList_stateless _
+      (fun e => if (RefsSrc.Cbc.Key_HasPrefix k.toList e) = true then some none else none)
+      (by intro x s; by_cases h : RefsSrc.Cbc.Key_HasPrefix k.toList x = true <;> simp [h])]
+    induction keys with
+    | nil => simp [errNew]
+    | cons a l ih =>
+      simp only [List.map_cons, List.findSome?, List.any_cons, src_Key_HasPrefix]
+      by_cases h : keyHasPrefix k a = true
+      · simp [h]
+      · simp only [h]; simpa using ih
+
+theorem src_hasKeyRule_other (r : RefsSrc.Cbc.hasKeyRule) : RefsSrc.Cbc.hasKeyRule_Validate r none = none := by
+  unfold RefsSrc.Cbc.hasKeyRule_Validate
+  simp [Id.run, GoblVerif.GoSem.id_pure]
+
+/-- `(*cbc.Definition).HasCode`: one of the values carries the code -/
+theorem src_Definition_HasCode (d : CDef) (c : Str) :
+    RefsSrc.Cbc.Definition_HasCode d c = d.values.any (fun v => v.code == c) :=
+  GoblVerif.Proofs.RefsSrc.src_Definition_HasCode d c
+
+/-! ### tax -/
+
+/-- **`inCategoryRatesRule.Validate` is the last branch of the model's `inCategoryRates`**: with
+    the keys of the category's rates, nil exactly when the rate key is blank or `Has` one of them -/
+theorem src_inCategoryRates (r : Regime) (cat key : String) (c : Category) (hc : r.category cat = some c) :
+    (RefsSrc.Tax.inCategoryRatesRule_Validate ⟨cat.toList, c.rateKeys.map String.toList⟩ (.key key.toList)).isNone =
+      inCategoryRates (some r) cat key := by
+  rw [src_inCategoryRatesRule]
+  unfold inCategoryRates
+  simp only [hc]
+  congr 1
+  · rw [Bool.eq_iff_iff]; simp
+  · rw [List.any_map]
+    congr 1
+    funext k
+    exact src_Key_Has key k
+
+/-- a value that is no `cbc.Key` passes the rate rule (ozzo hands the field's value on) -/
+theorem src_inCategoryRates_other (r : RefsSrc.Tax.inCategoryRatesRule) (v : Dyn) (h : ∀ k, v ≠ .key k) :
+    RefsSrc.Tax.inCategoryRatesRule_Validate r v = none := src_inCategoryRatesRule_other r v h
+
+/-- `(*RegimeDef).CategoryDef` is the first category with the code (nil regime: nil) -/
+theorem src_CategoryDef (r : Option RegimeD) (code : Str) :
+    RefsSrc.Tax.RegimeDef_CategoryDef r code = r.bind (fun r => r.categories.find? (fun c => c.code == code)) :=
+  GoblVerif.Proofs.RefsSrc.src_CategoryDef r code
+
+/-- **`tagValidation.Validate` (`tax.TagsIn`) is the model's `validateTags`**, for a `[]cbc.Key`
+    and for a `tax.Tags` value alike; any other dynamic type passes -/
+theorem src_TagsIn (docRegime : Option Regime) (addons : List Addon) (schema : String) (tags : List String) :
+    (RefsSrc.Tax.tagValidation_Validate ⟨(supportedTags docRegime addons schema).map String.toList⟩
+        (.keys (tags.map String.toList))).isNone = validateTags docRegime addons schema tags ∧
+    (RefsSrc.Tax.tagValidation_Validate ⟨(supportedTags docRegime addons schema).map String.toList⟩
+        (.tags ⟨tags.map String.toList⟩)).isNone = validateTags docRegime addons schema tags := by
+  have e : ∀ (sup : List String), (tags.map String.toList).all (fun x => (sup.map String.toList).contains x) =
+      tags.all (fun t => sup.contains t) := by
+    intro sup
+    rw [List.all_map]
+    congr 1
+    funext t
+    rw [Bool.eq_iff_iff]; simp [String.toList_inj]
+  unfold validateTags
+  exact ⟨by rw [src_tagValidation_keys, e], by rw [src_tagValidation_tags, e]⟩
+
+theorem src_TagsIn_other (keys : List Str) (v : Dyn) (h1 : ∀ l, v ≠ .keys l) (h2 : ∀ t, v ≠ .tags t) :
+    RefsSrc.Tax.tagValidation_Validate ⟨keys⟩ v = none := src_tagValidation_other keys v h1 h2
+
+/-- with no tag offered the rule accepts the empty list only (seed C18-4) -/
+theorem src_TagsIn_without_tagset (tags : List Str) :
+    (RefsSrc.Tax.tagValidation_Validate ⟨[]⟩ (.keys tags)).isNone = tags.isEmpty := by
+  rw [src_tagValidation_keys]
+  cases tags <;> simp
+
+/-- the registry of the published definitions: lookups as the model makes them -/
+theorem ofDefs_addonDefined (d : Defs) (k : String) :
+    (Registry.ofDefs d).addonDefined k.toList = (d.addonFor k).isSome := by
+  unfold Registry.ofDefs Defs.addonFor
+  simp only
+  rw [Bool.eq_iff_iff]
+  simp [List.any_eq_true, String.toList_inj]
+
+theorem ofDefs_regimeDefined (d : Defs) (c : String) :
+    (Registry.ofDefs d).regimeDefined c.toList = (d.regimeFor c).isSome := by
+  unfold Registry.ofDefs Defs.regimeFor
+  simp only
+  rw [Bool.eq_iff_iff]
+  simp [List.any_eq_true, String.toList_inj]
+
+/-- **`addonValidation.Validate` (`tax.AddonRegistered`) over the published definitions is the
+    model's `validateAddons`** for one key -/
+theorem src_AddonRegistered (d : Defs) (k : String) :
+    (RefsSrc.Tax.addonValidation_Validate (reg := Registry.ofDefs d) ⟨⟩ (.key k.toList)).isNone =
+      validateAddons d [k] := by
+  rw [@src_addonValidation (Registry.ofDefs d), ofDefs_addonDefined]
+  simp [validateAddons]
+
+/-- for any registry: nil exactly when the addon is registered -/
+theorem src_AddonRegistered_any [reg : Registry] (k : Str) :
+    (RefsSrc.Tax.addonValidation_Validate ⟨⟩ (.key k)).isNone = reg.addonDefined k := src_addonValidation k
+
+/-- **`tax.Regime.Validate` over the published definitions is the model's `validateRegime`** -/
+theorem src_Regime_Validate (d : Defs) (code : String) :
+    (RefsSrc.Tax.Regime_Validate (reg := Registry.ofDefs d) ⟨code.toList⟩).isNone = validateRegime d code := by
+  rw [@GoblVerif.Proofs.RefsSrc.src_Regime_Validate (Registry.ofDefs d), ofDefs_regimeDefined]
+  unfold validateRegime
+  congr 1
+  rw [Bool.eq_iff_iff]; simp
+
+/-- `validateExtCodeValues.Validate` (`tax.ExtensionsHasCodes`): nil exactly when the key is
+    absent or its value is one of the codes -/
+theorem src_ExtensionsHasCodes (key : Str) (values : List Str) (em : List (Str × Str)) :
+    (RefsSrc.Tax.validateExtCodeValues_Validate ⟨key, values⟩ (.ext em)).isNone =
+      (match em.lookup key with | none => true | some ev => values.contains ev) := src_ExtCodeValues key values em
+
+/-- **`tax.Extensions.Validate`, regenerated from the source**, for ANY registry, regexp
+    matcher and key / code syntax check: nil exactly when every key has the key syntax and
+    every pair passes `extPairOK` — the key is registered, the value is present (and a
+    well-formed code), listed when the definition lists values, matched when it has a pattern -/
+theorem src_Extensions_Validate [reg : Registry] (reMatch : Str → Str → Bool) (keySyntax : Str → Option Str)
+    (codeSyntax : Str → Bool) (em : List (Str × Str)) :
+    (RefsSrc.Tax.Extensions_Validate reMatch keySyntax codeSyntax em).isNone =
+      (em.all (fun x => (keySyntax x.1).isNone) && em.all (extPairOK reMatch codeSyntax)) :=
+  GoblVerif.Proofs.RefsSrc.src_Extensions_Validate reMatch keySyntax codeSyntax em
+
+/-- one pair, over the published definitions and with the syntax checks passing (C11's
+    business), **is the model's `validateExtPair`** -/
+theorem src_extPair (d : Defs) (rm : Str → Str → Bool) (kv : String × String) :
+    extPairOK (reg := Registry.ofDefs d) rm (fun _ => true) (kv.1.toList, kv.2.toList) =
+      validateExtPair d (fun p v => rm p.toList v.toList) kv := by
+  unfold extPairOK validateExtPair Defs.extDef Registry.ofDefs
+  simp only
+  have ef : (d.allExtDefs.find? fun e => e.key.toList == kv.1.toList) = d.allExtDefs.find? (·.key == kv.1) := by
+    congr 1; funext e; rw [Bool.eq_iff_iff]; simp [String.toList_inj]
+  rw [ef]
+  cases d.allExtDefs.find? (·.key == kv.1) with
+  | none => rfl
+  | some kd =>
+    simp only [Option.map_some, cdefOfExt, validateCode, requiredCode, if_true]
+    have e1 : (if kv.2.toList.isEmpty = true then some "cannot be blank".toList else (none : Option Str)).isNone = (kv.2 != "") := by
+      by_cases h : kv.2 = ""
+      · simp [h]
+      · have : ¬ kv.2.toList = [] := by simpa using h
+        simp [h, this]
+    have e2 : ((kd.codes.map cdefOfCode).isEmpty || (kd.codes.map cdefOfCode).any (fun v => v.code == kv.2.toList)) =
+        (kd.codes.isEmpty || kd.codes.contains kv.2) := by
+      congr 1
+      · cases kd.codes <;> rfl
+      · rw [List.any_map, Bool.eq_iff_iff]
+        simp only [List.any_eq_true, Function.comp, cdefOfCode, beq_iff_eq, String.toList_inj, List.contains_eq_mem,
+          decide_eq_true_eq]
+        constructor
+        · rintro ⟨x, hx, rfl⟩; exact hx
+        · intro h; exact ⟨kv.2, h, rfl⟩
+    have e3 : (kd.pattern.toList == []) = (kd.pattern == "") := by rw [Bool.eq_iff_iff]; simp
+    rw [e1, e2, e3]
+
+/-- **`Extensions.Validate` over the published definitions is the model's `validateExt`** (with
+    the key and code syntax checks passing) -/
+theorem src_validateExt (d : Defs) (rm : Str → Str → Bool) (ext : List (String × String)) :
+    (RefsSrc.Tax.Extensions_Validate (reg := Registry.ofDefs d) rm (fun _ => none) (fun _ => true)
+        (ext.map fun kv => (kv.1.toList, kv.2.toList))).isNone =
+      validateExt d (fun p v => rm p.toList v.toList) ext := by
+  rw [@src_Extensions_Validate (Registry.ofDefs d)]
+  unfold validateExt
+  have h1 : (ext.map fun kv => (kv.1.toList, kv.2.toList)).all (fun x => (none : Option Str).isNone) = true := by
+    simp
+  simp only [h1, Bool.true_and]
+  rw [List.all_map]
+  congr 1
+  funext kv
+  exact src_extPair d rm kv
+
+end Src
+
 /-! ## non-vacuity and the findings on the published data -/
 namespace Expect
 open GoblVerif.Generated.Defs
@@ -493,6 +814,26 @@ theorem undefined_stored_ext_is_rejected :
     validateTotal defs (fun _ _ => true) [⟨"VAT", [⟨"standard", "ES", []⟩]⟩] = true ∧
     validateTotal defs (fun _ _ => true) [⟨"VAT", [⟨"", "", [("mx-cfdi-prod-serv", "")]⟩]⟩] = false ∧
     validateTotal defs (fun _ _ => true) [⟨"VAT", [⟨"", "", [("mx-cfdi-prod-serv", "01010101")]⟩]⟩] = true := by decide +kernel
+
+/-- the key sets the schemas publish: the two places that take a payment means key list the
+    same keys; a means key resolves by its base (`card+zz`), an undefined base or a defined
+    key in second place does not; the hypotheses of `means_key_sound`, `note_key_sound`,
+    `terms_key_sound` are satisfiable -/
+theorem key_sets_published :
+    KeySets.get keySets "pay/means" = KeySets.get keySets "pay/means-advance" ∧ (KeySets.get keySets "pay/means").length = 14 ∧
+    validateMeansKey keySets true "card+zz" = true ∧ validateMeansKey keySets true "cardx" = false ∧
+    validateMeansKey keySets true "zz+card" = false ∧ validateMeansKey keySets true "" = false ∧
+    validateMeansKey keySets false "" = true ∧ meansKeyResolvesB keySets "credit-transfer+sepa" = true ∧
+    meansKeyResolvesB keySets "zz+card" = false ∧
+    validateNoteKey keySets "general" = true ∧ validateNoteKey keySets "zz-undefined" = false ∧
+    validateNoteKey keySets "general+x" = false ∧
+    validateTermsKey keySets "due-date" = true ∧ validateTermsKey keySets "due-date+x" = false := by decide +kernel
+
+/-- seed C18-3 on the regenerated `Key.Has`: a tail of a component is not a component -/
+theorem key_has_is_by_component :
+    Generated.RefsSrc.Cbc.Key_Has "non-standard".toList "standard".toList = false ∧
+    Generated.RefsSrc.Cbc.Key_Has "standard+eqs".toList "eqs".toList = true := by
+  rw [Src.src_Key_Has, Src.src_Key_Has]; decide
 
 /-! ### where the rules are applied (regenerated from bill/*.go, tax/*.go, org/document_ref.go) -/
 section Applied
